@@ -47,7 +47,9 @@ def run(h, prop):
     except OSError as e:
         out['undecided'].append('kani harness preparation failed: %s' % e)
         return out
-    env = dict(os.environ, CARGO_NET_OFFLINE='true', CARGO_TARGET_DIR=TARGET)
+    # a private target directory per run: Kani's artifacts are keyed by crate name, so concurrent runs on different source
+    # trees must not share one (a shared directory made one run verify the other's binary)
+    env = dict(os.environ, CARGO_NET_OFFLINE='true', CARGO_TARGET_DIR=os.path.join(work, 'target'))
     cmd = ['cargo', 'kani', '--harness', name]
     out['cmd'] = 'cd kani/harness && CARGO_NET_OFFLINE=true ' + ' '.join(cmd)
     try:
